@@ -28,8 +28,10 @@
 //!
 //! Files written to --out: model_in.txt, impl_out.txt, cases.txt (one JSON per model line),
 //! failures.jsonl (monitor failures with shrunk programs), stats.json.
+mod ioalias;
 mod modules;
 mod mutate;
+mod rankn;
 mod server;
 mod ty;
 
@@ -228,6 +230,29 @@ fn outcome_of(r: &serde_json::Value) -> String {
 
 /// Judges one reply of an accepted program.  `None`: nothing wrong (or not accepted).
 fn judge(p: &Prog, bits: u32, r: &serde_json::Value) -> Option<Failure> {
+    let mut f = judge_(p, bits, r)?;
+    // name the feature class for the template families
+    if p.family == "rank-n-mutant" {
+        f.key = format!("{}:wrong-rank-mutant-accepted", strip_hash(&f.key));
+    } else if p.family == "rank-n" {
+        f.key = format!("{}:rank-n", strip_hash(&f.key));
+    } else if p.tags.iter().any(|t| t == "io-alias") {
+        f.key = format!("{}:io-alias", strip_hash(&f.key));
+    } else if p.tags.iter().any(|t| t == "plain-alias") {
+        f.key = format!("{}:plain-alias", strip_hash(&f.key));
+    }
+    Some(f)
+}
+
+/// drops a trailing `:<8 hex digits>` program hash from a key
+fn strip_hash(k: &str) -> String {
+    match k.rsplit_once(':') {
+        Some((head, tail)) if tail.len() == 8 && tail.chars().all(|c| c.is_ascii_hexdigit()) => head.to_string(),
+        _ => k.to_string(),
+    }
+}
+
+fn judge_(p: &Prog, bits: u32, r: &serde_json::Value) -> Option<Failure> {
     let status = r["status"].as_str().unwrap_or("?");
     let multi = p.ast.as_ref().map_or_else(|| src_has_multi_record_alts(&p.main) || p.modules.iter().any(|m| src_has_multi_record_alts(&m.1)), |(a, _)| has_multi_record_alts(&a.expr));
     let multi = multi || p.tags.iter().any(|t| t == "multi-record-alts");
@@ -491,9 +516,11 @@ fn main() {
     let n_constructed = get("constructed", if thorough { 18_000 } else { 1_500 });
     let n_mutants = get("mutants", if thorough { 36_000 } else { 3_000 });
     let n_modules = get("modules", if thorough { 2_000 } else { 160 });
+    let n_rankn = get("rankn", if thorough { 3_000 } else { 200 });
+    let n_alias = get("alias", if thorough { 2_000 } else { 128 });
     let workers = get("workers", 8);
     let shrink_budget = get("shrink", 120);
-    let full_pct = get("full_pct", if thorough { 100 } else { 30 });
+    let full_pct = get("full_pct", if thorough { 100 } else { 25 });
     // which of the 32 settings every accepted program is run under (all of them by default)
     let all_bits: Vec<u32> = match args.extra.get("bits") {
         Some(s) => s.split(',').filter_map(|x| x.parse().ok()).collect(),
@@ -570,6 +597,24 @@ fn main() {
         progs.push(Prog { id: next_id, family: "modules".into(), name: format!("modules#{}", i), main: m.main, modules: m.modules, ast: None, constructed: m.ty.is_some(), tags: m.tags });
         next_id += 1;
     }
+    // higher-rank programs (well typed + wrong-rank mutants) and alias-mediated types
+    for i in 0..n_rankn {
+        let r = rankn::gen_rankn(&mut rng);
+        for t in &r.tags {
+            hist.add(&format!("family:{}", t));
+        }
+        let family = if r.well_typed { "rank-n" } else { "rank-n-mutant" };
+        progs.push(Prog { id: next_id, family: family.into(), name: format!("{}#{}", family, i), main: r.main, modules: vec![], ast: None, constructed: false, tags: r.tags });
+        next_id += 1;
+    }
+    for i in 0..n_alias {
+        let a = if i % 4 == 3 { ioalias::gen_plain_alias(&mut rng) } else { ioalias::gen_io_alias(&mut rng, next_id) };
+        for t in &a.tags {
+            hist.add(&format!("family:{}", t));
+        }
+        progs.push(Prog { id: next_id, family: "alias".into(), name: format!("alias#{}", i), main: a.main, modules: a.modules, ast: None, constructed: false, tags: a.tags });
+        next_id += 1;
+    }
     eprintln!("[c02] {} candidates ({} corpus) generated in {:.1}s", progs.len(), n_corpus, t0.elapsed().as_secs_f64());
 
     // ---- B. acceptance by the real checker (base setting)
@@ -591,7 +636,7 @@ fn main() {
                 }
             }
             _ => {
-                if progs[*pi].constructed && rejected_constructed.len() < 10 {
+                if (progs[*pi].constructed || progs[*pi].family == "rank-n" || progs[*pi].family == "alias") && rejected_constructed.len() < 10 {
                     rejected_constructed.push(json!({"program": progs[*pi].to_json(), "msg": r["msg"]}));
                 }
             }
@@ -608,7 +653,7 @@ fn main() {
     let mut n_full = 0u64;
     for &pi in &kept {
         let p = &progs[pi];
-        let full = p.family == "corpus" || p.family == "modules" || rng.below(100) < full_pct as u64 || all_bits.len() < 32;
+        let full = p.family == "corpus" || p.family == "modules" || p.family == "alias" || p.family.starts_with("rank-n") || rng.below(100) < full_pct as u64 || all_bits.len() < 32;
         if full {
             n_full += 1;
             for &b in &all_bits {
@@ -660,7 +705,8 @@ fn main() {
         let p = &progs[pi];
         let mut seen_shape: HashSet<String> = HashSet::new();
         let mut outcomes: BTreeMap<String, Vec<u32>> = BTreeMap::new();
-        let mut io_typed = false;
+        // the type reaches IO through an alias: the printed type does not mention IO
+        let mut io_typed = p.tags.iter().any(|t| t == "io-alias");
         for (&bits, r) in rs {
             us_total += r["us"].as_u64().unwrap_or(0);
             let st = r["status"].as_str().unwrap_or("?");
